@@ -96,7 +96,7 @@ def sch (l : List Nat) : List Ent := l.map Ent.t
     listener call); thread 1: a failed completion trips the closed breaker and reports Closed→Open first -/
 def orderRun : Conf :=
   run cfg10 (init cfg10 [[.complete 1 true, .tryPass false, .complete 1 false], [.complete 1 true]])
-    (sch [0, 0, 0, 0] ++ [.tick 10] ++ sch [0, 0, 0, 0, 0, 0, 0, 1, 1, 1, 1, 0])
+    (sch [0, 0, 0, 0] ++ [.tick 10] ++ sch [0, 0, 0, 0, 0, 0, 0, 0, 1, 1, 1, 1, 0])
 
 /-- an interleaving in which every transition is reported exactly once with the right prev, nothing is admitted
     early, and yet the calls arrive in an order that is not a path: documentation, not a violation -/
@@ -268,7 +268,7 @@ theorem listener_order_iff (cfg : Cfg) (progs : List (List Call)) (es : List Ent
 /-- the region is inhabited (the documented reordering run) … -/
 theorem orderRegion_inhabited :
     OrderRegion cfg10 (init cfg10 [[.complete 1 true, .tryPass false, .complete 1 false], [.complete 1 true]])
-      (sch [0, 0, 0, 0] ++ [.tick 10] ++ sch [0, 0, 0, 0, 0, 0, 0, 1, 1, 1, 1, 0]) := by
+      (sch [0, 0, 0, 0] ++ [.tick 10] ++ sch [0, 0, 0, 0, 0, 0, 0, 0, 1, 1, 1, 1, 0]) := by
   by_contra h
   have hd : ∀ t ∈ orderRun.th, t.pc.owes = none := by decide
   have := (listener_order_iff cfg10 _ _ hd).mpr h
@@ -315,7 +315,7 @@ theorem quietRunB_sound (cfg : Cfg) (es : List Ent) : ∀ c : Conf, quietRunB cf
 /-- the hypothesis of `listener_order_partial` is satisfiable: open, wait, probe, close — interleaved with a
     second thread's TryPass calls at points where nobody owes a notification -/
 example : QuietRun cfg10 (init cfg10 [[.complete 1 true, .tryPass false, .complete 1 false], [.tryPass false, .tryPass false]])
-    (sch [0, 0, 0, 0, 1, 1] ++ [.tick 10] ++ sch [0, 0, 1, 0, 0, 0, 0, 0, 0, 1]) :=
+    (sch [0, 0, 0, 0, 1, 1, 1] ++ [.tick 10] ++ sch [0, 0, 0, 0, 1, 0, 0, 0, 0, 0]) :=
   quietRunB_sound _ _ _ (by decide)
 
 /-! ## single_probe — probeNum = 0: one probe per passage to HalfOpen -/
@@ -414,7 +414,7 @@ def no_early_admission_statement : Prop :=
     before the deadline store; thread 1's TryPass reads Open, the still-zero deadline, and wins Open→HalfOpen in
     the same millisecond (timeout 1000 ms). -/
 def earlyRun : Conf :=
-  run cfg1000 (init cfg1000 [[.complete 1 true], [.tryPass false]]) (sch [0, 0, 0, 1, 1, 1])
+  run cfg1000 (init cfg1000 [[.complete 1 true], [.tryPass false]]) (sch [0, 0, 0, 1, 1, 1, 1])
 
 theorem early_probe_witness :
     earlyRun.sh.early = true ∧ earlyRun.sh.earlyNoDl = true ∧ earlyRun.sh.earlyStale = false
@@ -424,7 +424,7 @@ theorem early_probe_witness :
     deadline read is not zero but the expired one of the previous opening -/
 def earlyRunHalfOpen : Conf :=
   run cfg10 (init cfg10 [[.complete 1 true, .complete 1 true], [.tryPass false, .tryPass false]])
-    (sch [0, 0, 0, 0] ++ [.tick 10] ++ sch [1, 1, 1, 0, 0, 1, 1, 1])
+    (sch [0, 0, 0, 0] ++ [.tick 10] ++ sch [1, 1, 1, 1, 0, 0, 1, 1, 1, 1])
 
 theorem early_probe_halfopen_witness :
     earlyRunHalfOpen.sh.earlyNoDl = true ∧ earlyRunHalfOpen.sh.earlyStale = false
@@ -436,7 +436,7 @@ theorem early_probe_halfopen_witness :
     cas(Open,HalfOpen) then succeeds although the new deadline (stored!) is a full timeout away. -/
 def abaRun : Conf :=
   run cfg10 (init cfg10 [[.complete 1 true], [.tryPass false], [.tryPass false, .complete 1 false, .complete 1 true]])
-    (sch [0, 0, 0, 0] ++ [.tick 10] ++ sch [1, 1, 2, 2, 2, 2, 2, 2, 2, 2, 2, 2, 2, 2, 1])
+    (sch [0, 0, 0, 0] ++ [.tick 10] ++ sch [1, 1, 1, 2, 2, 2, 2, 2, 2, 2, 2, 2, 2, 2, 2, 2, 1])
 
 theorem aba_witness :
     abaRun.sh.early = true ∧ abaRun.sh.earlyStale = true ∧ abaRun.sh.earlyNoDl = false
@@ -449,7 +449,7 @@ theorem no_early_admission_false : ¬ no_early_admission_statement := by
   exact absurd h1 (by decide)
 
 /-- run to completion first, the same two calls are fine -/
-example : (run cfg1000 (init cfg1000 [[.complete 1 true], [.tryPass false]]) (sch [0, 0, 0, 0, 1, 1, 1])).sh.early = false := by
+example : (run cfg1000 (init cfg1000 [[.complete 1 true], [.tryPass false]]) (sch [0, 0, 0, 0, 1, 1, 1, 1])).sh.early = false := by
   decide
 
 /-- **no_early_admission_partial.** In every reachable configuration: a `TryPass` parked before its
@@ -459,7 +459,7 @@ example : (run cfg1000 (init cfg1000 [[.complete 1 true], [.tryPass false]]) (sc
 theorem no_early_admission_partial (cfg : Cfg) {c : Conf} (h : Reach cfg c) (i : Nat) (t : Th)
     (hi : c.th[i]? = some t) (blk : Bool) (ep : Nat) (fr : Bool) (hpc : t.pc = .tpCas blk ep fr)
     (hfresh : fr = true) (hep : ep = c.sh.epoch) : c.sh.openedAt + cfg.timeout ≤ c.sh.clock :=
-  ((reach_inv cfg h).thTime i t hi blk ep fr hpc).2 hfresh hep
+  (((reach_inv cfg h).thTime i t hi).1 blk ep fr hpc).2 hfresh hep
 
 /-- …equivalently on the monitors: an early admission outside the two classified windows never happens, and
     every early admission is classified. -/
@@ -597,9 +597,9 @@ theorem no_early_admission_iff (cfg : Cfg) (progs : List (List Call)) (es : List
 
 /-- the region is inhabited: the witness runs of both findings lie in it … -/
 theorem earlyRegion_inhabited :
-    EarlyRegion cfg1000 (init cfg1000 [[.complete 1 true], [.tryPass false]]) (sch [0, 0, 0, 1, 1, 1]) ∧
+    EarlyRegion cfg1000 (init cfg1000 [[.complete 1 true], [.tryPass false]]) (sch [0, 0, 0, 1, 1, 1, 1]) ∧
     EarlyRegion cfg10 (init cfg10 [[.complete 1 true], [.tryPass false], [.tryPass false, .complete 1 false, .complete 1 true]])
-      (sch [0, 0, 0, 0] ++ [.tick 10] ++ sch [1, 1, 2, 2, 2, 2, 2, 2, 2, 2, 2, 2, 2, 2, 1]) := by
+      (sch [0, 0, 0, 0] ++ [.tick 10] ++ sch [1, 1, 1, 2, 2, 2, 2, 2, 2, 2, 2, 2, 2, 2, 2, 2, 1]) := by
   constructor
   · by_contra h
     have := (no_early_admission_iff cfg1000 _ _).mpr h
@@ -609,7 +609,7 @@ theorem earlyRegion_inhabited :
     exact absurd (show abaRun.sh.early = false from this) (by rw [aba_witness.1]; decide)
 
 /-- … and so is its complement (non-vacuity of the other direction): the sequential run of the same two calls -/
-example : ¬ EarlyRegion cfg1000 (init cfg1000 [[.complete 1 true], [.tryPass false]]) (sch [0, 0, 0, 0, 1, 1, 1]) :=
+example : ¬ EarlyRegion cfg1000 (init cfg1000 [[.complete 1 true], [.tryPass false]]) (sch [0, 0, 0, 0, 1, 1, 1, 1]) :=
   (no_early_admission_iff cfg1000 _ _).mp (by decide)
 
 /-- the deadline, once stored after an opening, is a full timeout after that opening -/
@@ -1019,14 +1019,14 @@ theorem world_tick_keeps_list (w : World) (ms : Nat) : (w.tick ms).cur = w.cur :
     word is HalfOpen, and two more TryPass calls running under the schedule `1 2 1 2` keep it there -/
 example : staysHalfOpen cfg10
     (run cfg10 (init cfg10 [[.complete 1 true, .tryPass false], [.tryPass false], [.tryPass false]])
-      (sch [0, 0, 0, 0] ++ [.tick 10] ++ sch [0, 0, 0])) (sch [1, 2]) := by
+      (sch [0, 0, 0, 0] ++ [.tick 10] ++ sch [0, 0, 0, 0])) (sch [1, 2]) := by
   simp only [staysHalfOpen, sch, List.map]
   decide
 
 /-- the hypotheses of `no_early_admission_partial` are satisfiable: a TryPass parked before its CAS with a fresh
     check of the current opening -/
 example : ((run cfg10 (init cfg10 [[.complete 1 true], [.tryPass false]])
-      (sch [0, 0, 0, 0] ++ [.tick 10] ++ sch [1, 1])).th[1]?).map (·.pc) = some (.tpCas false 1 true) := by
+      (sch [0, 0, 0, 0] ++ [.tick 10] ++ sch [1, 1, 1])).th[1]?).map (·.pc) = some (.tpCas false 1 true) := by
   decide
 
 end Sentinel.C12
